@@ -4,7 +4,11 @@
 // Compiled only with the build tag "verif"; adds no behaviour.
 package parser
 
-import "bytes"
+import (
+	"bytes"
+
+	"github.com/coreruleset/crs-toolchain/v2/regex/processors"
+)
 
 type VerifParsedLine struct {
 	Type               int
@@ -85,4 +89,26 @@ func VerifStringFromInclusionLines(lines []string, order []int) string {
 
 func VerifFlagIsAllowed(flag rune) bool {
 	return flagIsAllowed(flag)
+}
+
+// VerifParsed is the result of a full Parse(false) run.
+type VerifParsed struct {
+	Out      string
+	Flags    string
+	Prefixes []string
+	Suffixes []string
+}
+
+// VerifParse runs the parser in compile mode on input; include and exclude files are
+// looked up below ctx's root directory.
+func VerifParse(ctx *processors.Context, input string) VerifParsed {
+	p := NewParser(ctx, bytes.NewReader([]byte(input)))
+	out, _ := p.Parse(false)
+	flags := ""
+	for _, f := range []rune{'i', 's'} {
+		if p.Flags[f] {
+			flags += string(f)
+		}
+	}
+	return VerifParsed{Out: out.String(), Flags: flags, Prefixes: p.Prefixes, Suffixes: p.Suffixes}
 }
